@@ -2,7 +2,11 @@
 (***************************************************************************)
 (* C19, code -> spec.  One trace = one call of ribana.trace_chains on a    *)
 (* pair of entry / exit lists.  The driver logs                            *)
-(*   parts : <<subtomo id, tomogram>> of every input particle              *)
+(*   parts : <<particle, tomogram>> of every input particle; a particle is *)
+(*           identified by (tomogram, subtomogram number) - the numbering  *)
+(*           may restart in every tomogram - and named by its position in  *)
+(*           the input lists; a returned row with an unknown pair gets a   *)
+(*           negative name                                                 *)
 (*   link  : <<a, b, d>> for every ordered pair of different particles of  *)
 (*           one tomogram whose distance exit(a) -> entry(b), computed by  *)
 (*           brute force, lies in (min_distance, max_distance]; d is that  *)
